@@ -169,6 +169,13 @@ class OptionBag:
         return string.lower()
 
 
+def _value_position(pos):
+    # Option positions are (url, lineno, colno); values and
+    # DataConversionError use (lineno, colno, url).
+    url, lineno, colno = pos
+    return lineno, colno, url
+
+
 class MatcherMixin:
 
     def set_optionbag(self, bag):
@@ -196,7 +203,8 @@ class MatcherMixin:
     def finish_optionbag(self):
         for key in list(self.optionbag.keys()):
             for val, pos in self.optionbag.get_key(key):
-                ZConfig.matcher.BaseMatcher.addValue(self, key, val, pos)
+                ZConfig.matcher.BaseMatcher.addValue(
+                    self, key, val, _value_position(pos))
         self.optionbag.finish()
 
 
